@@ -14,7 +14,7 @@ use klippa::{subset_font, verif_hooks as vh, Plan, SubsetFlags};
 use read_fonts::collections::IntSet;
 use read_fonts::tables::glyf::Glyph;
 use read_fonts::types::{GlyphId, NameId, Tag};
-use read_fonts::{FontRef, TableProvider};
+use read_fonts::{FontRead, FontRef, TableProvider};
 use skrifa::instance::{Location, LocationRef, Size};
 use skrifa::outline::{DrawSettings, OutlinePen};
 use skrifa::MetadataProvider;
@@ -641,6 +641,26 @@ struct FontCtx<'a> {
     locs: Vec<Location>,
     /// plan-level correspondence possible (no COLR / cmap14 closure feeding the glyph set)
     has_colr: bool,
+    /// failures already reported per oracle for this font (whole-table losses repeat for every request and
+    /// would otherwise fill the session's failure list)
+    reported: std::cell::RefCell<BTreeMap<String, u32>>,
+}
+
+impl FontCtx<'_> {
+    /// a whole-table oracle: evaluated every time, but at most 2 failures per font are recorded
+    fn table_oracle(&self, s: &mut Session, name: &str, ok: bool, input: &str, detail: String) {
+        if !ok {
+            let mut m = self.reported.borrow_mut();
+            let c = m.entry(name.to_string()).or_insert(0);
+            *c += 1;
+            if *c > 2 {
+                s.oracle_checks += 1;
+                s.count(&format!("repeat-failure-not-recorded:{name}"));
+                return;
+            }
+        }
+        s.oracle(name, ok, || input.to_string(), || detail);
+    }
 }
 
 fn table<'a>(font: &FontRef<'a>, tag: &[u8; 4]) -> Option<&'a [u8]> {
@@ -767,7 +787,7 @@ fn run_request(s: &mut Session, fc: &FontCtx, req: &Req, tag: &str, deep: bool) 
         Ok(Err(e)) => {
             s.count(&format!("subset:Err({e})"));
             // every font used here is well formed as far as the subsetter's own readers go: a refusal is a failure
-            s.oracle("subset-returns-ok", false, || input.clone(), || format!("subset_font returned Err({e})"));
+            fc.table_oracle(s, "subset-returns-ok", false, &input, format!("subset_font returned Err({e})"));
             return None;
         }
         Err(e) => {
@@ -861,7 +881,7 @@ fn run_request(s: &mut Session, fc: &FontCtx, req: &Req, tag: &str, deep: bool) 
     }
     // character map
     let cmap_kept = sub.cmap().is_ok();
-    s.oracle("cmap-table-kept", cmap_kept, || input.clone(), || "the original has a cmap table, subset_font returned Ok, the subset has none".into());
+    fc.table_oracle(s, "cmap-table-kept", cmap_kept, &input, "the original has a cmap table, subset_font returned Ok, the subset has none".into());
     if cmap_kept {
         let subcm = sub.charmap();
         let mut wrong = vec![];
@@ -897,10 +917,14 @@ fn run_request(s: &mut Session, fc: &FontCtx, req: &Req, tag: &str, deep: bool) 
     // an HVAR whose variation store has no regions (all deltas zero) is dropped by design; skrifa then takes
     // metric deltas from the gvar phantom points.  Either way the observable metrics must not change,
     // so they are compared at every location.
-    if font.hvar().is_ok() && sub.hvar().is_err() {
+    let hvar_dropped = font.hvar().is_ok() && sub.hvar().is_err();
+    if hvar_dropped {
         s.count("hvar:dropped-from-subset");
     }
-    let (m_locs0, m_locs1): (&[Location], &[Location]) = (&fc.locs, &sub_locs);
+    // metrics at the default location (hmtx + skrifa) and, separately named, at the other locations
+    let (m_locs0, m_locs1): (&[Location], &[Location]) = (&fc.locs[..1], &sub_locs[..1]);
+    let (v_locs0, v_locs1): (&[Location], &[Location]) = (&fc.locs[1..], &sub_locs[1.min(sub_locs.len())..]);
+    let (mut bad_av, mut bad_lv): (Vec<String>, Vec<String>) = (vec![], vec![]);
     let notdef_outline = req.flags & F_NOTDEF_OUTLINE != 0;
     let step = if deep || view.new_to_old_gid_list.len() <= 260 { 1 } else { view.new_to_old_gid_list.len() / 200 };
     let (mut bad_o, mut bad_a, mut bad_l) = (vec![], vec![], vec![]);
@@ -946,6 +970,16 @@ fn run_request(s: &mut Session, fc: &FontCtx, req: &Req, tag: &str, deep: bool) 
         if l0 != l1 && bad_l.len() < 4 {
             bad_l.push(format!("old gid {old} -> new gid {new}: {}", first_diff(&l0, &l1)));
         }
+        if !v_locs0.is_empty() {
+            let (a0, l0) = metrics_obs(&font, *old, v_locs0);
+            let (a1, l1) = metrics_obs(&sub, *new, v_locs1);
+            if a0 != a1 && bad_av.len() < 4 {
+                bad_av.push(format!("old gid {old} -> new gid {new}: {}", first_diff(&a0, &a1)));
+            }
+            if l0 != l1 && bad_lv.len() < 4 {
+                bad_lv.push(format!("old gid {old} -> new gid {new}: {}", first_diff(&l0, &l1)));
+            }
+        }
     }
     s.dist.entry("kept-glyphs-observed".into()).and_modify(|v| *v += checked).or_insert(checked);
     if let Ok(dir) = std::env::var("C17_DUMP") {
@@ -958,6 +992,11 @@ fn run_request(s: &mut Session, fc: &FontCtx, req: &Req, tag: &str, deep: bool) 
     s.oracle("outline-preserved", bad_o.is_empty(), || input.clone(), || bad_o.join(" | "));
     s.oracle("advance-preserved", bad_a.is_empty(), || input.clone(), || bad_a.join(" | "));
     s.oracle("lsb-preserved", bad_l.is_empty(), || input.clone(), || bad_l.join(" | "));
+    if fc.locs.len() > 1 {
+        let sfx = if hvar_dropped { "[hvar-dropped]" } else { "" };
+        s.oracle(&format!("advance-preserved@locations{sfx}"), bad_av.is_empty(), || input.clone(), || bad_av.join(" | "));
+        s.oracle(&format!("lsb-preserved@locations{sfx}"), bad_lv.is_empty(), || input.clone(), || bad_lv.join(" | "));
+    }
     Some(Outcome { view, subset })
 }
 
@@ -1000,7 +1039,10 @@ fn idempotence(s: &mut Session, fc: &FontCtx, req: &Req, first: &Outcome) {
     });
     match r {
         Err(e) => s.oracle("resubset-no-panic", false, || input.clone(), || e.clone()),
-        Ok((_, Err(e))) => s.count(&format!("resubset:Err({e})")),
+        Ok((_, Err(e))) => {
+            s.count(&format!("resubset:Err({e})"));
+            fc.table_oracle(s, "resubset-returns-ok", false, &input, format!("subset_font on the subset returned Err({e})"));
+        }
         Ok((v2, Ok(bytes2))) => {
             let map2: BTreeMap<u32, u32> = v2.glyph_map.iter().copied().collect();
             // glyphs the property speaks about: requested, .notdef, cmap-requested, and their glyf components
@@ -1155,6 +1197,7 @@ fn make_ctx<'a>(label: String, data: &'a [u8]) -> Option<FontCtx<'a>> {
         cmap_consistent,
         locs: locations(&font),
         has_colr: font.colr().is_ok(),
+        reported: Default::default(),
     })
 }
 
@@ -1297,6 +1340,23 @@ fn syn_sized(name: &str, sizes: &[usize], long_loca: bool) -> Syn {
 // unit-level per-glyph rewrite
 // ---------------------------------------------------------------------------------------------
 
+
+/// the component ids read-fonts reports for one glyph record (what the closure iterates)
+fn comps_case(s: &mut Session, rec: &[u8]) {
+    if rec.is_empty() {
+        return;
+    }
+    let resp = match catch(|| match Glyph::read(read_fonts::FontData::new(rec)) {
+        Ok(Glyph::Composite(c)) => c.components().map(|c| c.glyph.to_u32()).collect::<Vec<_>>(),
+        _ => vec![],
+    }) {
+        Ok(v) => join(&v),
+        Err(_) => "trap".into(),
+    };
+    s.count(if resp == "-" { "comps:none" } else { "comps:some" });
+    s.case("comps", format!("c17.comps {}", hex(rec)), resp);
+}
+
 fn glyph_unit(s: &mut Session, r: &mut Rng, count: usize) {
     for _ in 0..count {
         let composite = r.chance(2, 5);
@@ -1344,6 +1404,7 @@ fn glyph_unit(s: &mut Session, r: &mut Rng, count: usize) {
             }
             _ => {}
         }
+        comps_case(s, &rec);
         let flags = flag_combo(r);
         let mut map: Vec<(u32, u32)> = vec![];
         for g in 0..12u32 {
@@ -1455,6 +1516,20 @@ fn run_font(s: &mut Session, r: &mut Rng, label: String, data: &[u8], nreq: usiz
         return;
     };
     s.count(if fc.has_colr { "font:with-COLR" } else { "font:plain" });
+    if let Ok(font) = FontRef::new(data) {
+        if let (Ok(loca), Ok(glyf)) = (font.loca(None), font.glyf()) {
+            for g in 0..loca.len() {
+                if let (Some(a), Some(b)) = (loca.get_raw(g), loca.get_raw(g + 1)) {
+                    if let Some(bytes) = glyf.offset_data().as_bytes().get(a as usize..b as usize) {
+                        // composites only (simple glyphs are covered by the unit group)
+                        if bytes.len() >= 2 && bytes[0] & 0x80 != 0 {
+                            comps_case(s, bytes);
+                        }
+                    }
+                }
+            }
+        }
+    }
     if fc.locs.len() > 1 {
         s.count("font:variable");
     }
@@ -1474,11 +1549,11 @@ fn run(cfg: &Config, s: &mut Session) {
     let th = cfg.thorough();
 
     // 1. unit-level glyph rewriting
-    glyph_unit(s, &mut r, if th { 60_000 } else { 6_000 });
-    trim_unit(s, &mut r, if th { 100_000 } else { 10_000 });
+    glyph_unit(s, &mut r, if th { 200_000 } else { 6_000 });
+    trim_unit(s, &mut r, if th { 400_000 } else { 10_000 });
 
     // 2. small mixed synthetic fonts
-    for id in 0..(if th { 1500 } else { 160 }) {
+    for id in 0..(if th { 5000 } else { 160 }) {
         let sf = syn_mixed(&mut r, id);
         let data = build_font(&sf);
         run_font(s, &mut r, sf.name.clone(), &data, if th { 6 } else { 4 }, true);
@@ -1588,7 +1663,7 @@ fn run(cfg: &Config, s: &mut Session) {
         }
         let Ok(data) = std::fs::read(&p) else { continue };
         let label = format!("corpus:{}", p.file_name().unwrap().to_string_lossy());
-        run_font(s, &mut r, label, &data, if th { 40 } else { 6 }, false);
+        run_font(s, &mut r, label, &data, if th { 100 } else { 6 }, false);
     }
 }
 
